@@ -16,6 +16,7 @@ def oracle(case, out):
         return []
     viol = []
     ref = {}   # inst -> dict(st, view, dgc, nwgc, writers:set)
+    born, flagged = {}, set()   # data id -> (dgc, nwgc) of the generation it was received in
     for i, t, o, before, after in walk(case, out):
         if o in ("PANIC", "POISONED") or o.startswith("CRASH"):
             viol.append({"what": f"op {i} {' '.join(t)} panicked", "at": i}); break
@@ -55,7 +56,13 @@ def oracle(case, out):
                             x["st"] = "W"
                         else:
                             multi = True
+            if inst in ref and kind in ("A", "F"):
+                born[t[6]] = (ref[inst]["dgc"], ref[inst]["nwgc"])   # generation the sample belongs to
             if after is not None:
+                for s_ in after[0]:
+                    if s_["data"] in born and s_["kind"] in ("A", "F") and (s_["dgc"], s_["nwgc"]) != born[s_["data"]] and s_["data"] not in flagged:
+                        flagged.add(s_["data"])
+                        viol.append({"what": f"op {i}: sample {s_['data']} is stored with generation counts ({s_['dgc']},{s_['nwgc']}), the life cycle says {born[s_['data']]} at the time it was received", "at": i})
                 got = after[1].get(inst)
                 x = ref[inst]
                 if got is None:
@@ -79,6 +86,9 @@ def oracle(case, out):
                     x = ref.get(inf["inst"])
                     if x is None:
                         continue
+                    if inf["valid"] and inf["data"] in born and (inf["dgc"], inf["nwgc"]) != born[inf["data"]] and inf["data"] not in flagged:
+                        flagged.add(inf["data"])
+                        viol.append({"what": f"op {i}: SampleInfo of {inf['data']} carries generation counts ({inf['dgc']},{inf['nwgc']}), the life cycle says {born[inf['data']]}", "at": i})
                     if inf["st"] != x["st"] or inf["view"] != x["view"]:
                         viol.append({"what": f"op {i}: SampleInfo of {inf['data']} says ({inf['st']},{inf['view']}), life cycle says ({x['st']},{x['view']})", "at": i})
                 for h in set(inf["inst"] for inf in infos):
